@@ -400,24 +400,31 @@ def hist_suite(ctx, name, lines, res):
 # ------------------------------------------------------------------------------------------------ generic (C15)
 def generic_suite(ctx, name, lines, res):
     if not lines: return
-    rv = run_sharded(HBIN, 'eval', [harness_line(l) for l in lines])
-    rg = run_sharded(HBIN, 'generic', [harness_line(l) for l in lines])
+    hl = [harness_line(l) for l in lines]
+    rv = run_sharded(HBIN, 'eval', hl)
+    rg1 = run_sharded(HBIN, 'generic', hl)       # second Queryable type, structural PartialEq, Default = {}
+    rg2 = run_sharded(HBIN, 'generic2', hl)      # third Queryable type, PartialEq by JSON value, Default = "default"
     model = run_sharded(MBIN, 'eval', lines)
-    assert len(rv) == len(rg) == len(model) == len(lines)
+    assert len(rv) == len(rg1) == len(rg2) == len(model) == len(lines)
     info = collections.Counter()
-    for ln, a, b, ml in zip(lines, rv, rg, model):
-        c = json.loads(ln); a = json.loads(a); b = json.loads(b); m = json.loads(ml)
+    for ln, a, b1, b2, ml in zip(lines, rv, rg1, rg2, model):
+        c = json.loads(ln); a = json.loads(a); b1 = json.loads(b1); b2 = json.loads(b2); m = json.loads(ml)
         res.stats['cases'] += 1; info['cases'] += 1
-        pa, pb = proj_eval('C15', a), proj_eval('C15', b)
+        if 'skipped' in a or 'skipped' in b1 or 'skipped' in b2 or 'skipped' in m or 'badjson' in a: res.stats['skip:not_run'] += 1; continue
+        pa = proj_eval('C15', a)
         if (m.get('flags') or {}).get('regex_unsupported'): res.stats['skip:regex_unsupported'] += 1; continue
         pm = proj_eval('C15', m['impl'])
         if pa[0] == 'ok' and pa[1]: res.nontrivial.add(chash([c['q'], c['doc']]))
-        if pb != pm:
-            res.corr_fail.append({'suite': name, 'mode': 'generic', 'case': c, 'real': b, 'model': m}); info['corr_fail'] += 1
-        if pa != pb:
-            res.violations.append({'suite': name, 'mode': 'generic', 'case': c, 'real': {'value_run': a, 'generic_run': b}, 'model': m,
-                                   'why': 'second Queryable implementation gives different paths/values than serde_json::Value'}); info['violations'] += 1
-        elif pa[0] == 'ok' and pa[1] and len(res.samples) < 3: res.samples.append({'suite': name, 'q': c['q'], 'doc': c['doc']})
+        for which, b in (('structural-eq type', b1), ('value-eq type', b2)):
+            pb = proj_eval('C15', b)
+            if pb != pm:
+                res.corr_fail.append({'suite': name, 'mode': 'generic', 'case': c, 'real': b, 'model': m}); info['corr_fail'] += 1
+            if pa != pb:
+                res.violations.append({'suite': name, 'mode': 'generic', 'case': c, 'real': {'value_run': a, 'generic_run': b, 'type': which}, 'model': m,
+                                       'why': 'a faithful Queryable implementation (' + which + ') gives different paths/values than serde_json::Value'}); info['violations'] += 1
+                break
+        else:
+            if pa[0] == 'ok' and pa[1] and len(res.samples) < 3: res.samples.append({'suite': name, 'q': c['q'], 'doc': c['doc']})
     res.suite_info.append({'suite': name, **info})
 
 
@@ -546,8 +553,9 @@ def run(ctx, round_no=0):
                     'blanks at every S); all spellings must agree on the real crate, and each agrees with the model')
         group_suite(ctx, 'spellings', g('gen_targeted.py', 'c13', seed, 12000 * S), res)
     elif p == 'C15':
-        res.rule = ('the same (query, document) cases through serde_json::Value and through a second Queryable type (members in a Vec, separate unsigned '
-                    'variant); paths and values must be equal position by position; both equal the model')
+        res.rule = ('the same (query, document) cases through serde_json::Value and through two other Queryable types (members in a Vec, separate unsigned '
+                    'variant, lossy Debug, Default != null, no reference override; one with structural PartialEq, one with PartialEq by JSON value); '
+                    'paths and values must be equal position by position; all equal the model')
         generic_suite(ctx, 'second-queryable', g('gen_eval.py', seed, 10000 * S), res)
         generic_suite(ctx, 'targeted-functions', g('gen_targeted.py', 'c10', seed, 3000 * S) + g('gen_targeted.py', 'c14', seed, 3000 * S) + g('gen_targeted.py', 'c04', seed, 3000 * S), res)
     else:
